@@ -464,6 +464,7 @@ pub fn run(cfg: &Cfg) {
     // ---- random rule lists (length 0..5), normalized and not
     let n = if cfg.thorough { 60_000 } else { 6_000 };
     for i in 0..n {
+        let mut r = r.at(i as u64);
         let normalized = i % 4 != 0;
         let nm = r.below(4);
         let np = r.below(4);
